@@ -234,14 +234,57 @@ def e1_obligations(rep: Report, ctx: Ctx, select, rule_prefix=''):
     return n
 
 
+# Records and obligations of *other* properties that are necessary conditions of a property as well (DESIGN 11.12): a
+# change is usually tried against the check of the property it was written for.
+C06_FROM_C05 = ('day of year accepted exactly', '12-hour value with meridian', 'AM, PM and an absent meridian are all accepted',
+                'a weekday field is checked against the date', 'the weekday field is checked against the date that is returned',
+                'a 12-hour value outside 1..=12 is rejected', 'with a month field the day comes from the day of the year',
+                'with a day field the month comes from the day of the year')
+ALSO = {
+    # what the writer emits must be read back: the reader-side rules about values the writer can produce
+    'C06': lambda c, r: c['prop'] == 'C05' and any(x in c['clause'] for x in C06_FROM_C05),
+    # chronological order across types: the mixed comparisons
+    'C07': lambda c, r: c['prop'] == 'C17' and ('compar' in c['clause'] or 'cmp' in c['clause'].lower()),
+    # the three date-like types satisfy the same characterisation of truncation / rounding / last day / month arithmetic
+    'C17': lambda c, r: c['prop'] in ('C09', 'C10', 'C11') and ('timestamp::Timestamp' in r['root'] or 'oracle::Date' in r['root']),
+    # adding months relies on the month lengths (leap rule, month-length table)
+    'C09': lambda c, r: c['prop'] == 'C01' and (r['root'] in ('common::is_leap_year', 'common::days_of_month') or 'K-step' in c['clause']),
+    # the parser's final assembly validates the date with the calendar acceptance rule
+    'C05': lambda c, r: c['prop'] == 'C01' and r['root'] in ('date::Date::validate_ymd', 'date::Date::try_from_ymd'),
+}
+# roots whose panic / range / exact-cast obligations count for a property besides the roots that carry its contracts
+ROOT_PATTERNS = {
+    'C04': r'::format|Display|LazyFormat|Serialize',
+    'C05': r'::parse|FromStr|visit_str|TryFrom<format::NaiveDateTime>',
+    'C06': r'::format|::parse|Display|LazyFormat',
+    'C15': r'serialize|Serialize|Deserialize|visit_',
+    'C18': r'::now|::parse|TryFrom<time::Time>',
+    'C19': r'try_new|FormatParser',
+}
+
+
+def related_obligations(rep: Report, ctx: Ctx, prop):
+    """a panic edge, an out-of-range result or an inexact cast under a root that carries contracts of the property (or matches
+    its root pattern) means the property's function does not return the specified result for some input"""
+    if prop in ('C02', 'C03'):
+        return 0
+    roots = {r['root'] for r in ctx.e1['roots'] if any(c['prop'] == prop or (prop in ALSO and ALSO[prop](c, r)) for c in r['contracts'])}
+    pat = ROOT_PATTERNS.get(prop)
+    if pat:
+        rx = re.compile(pat)
+        roots |= {r['root'] for r in ctx.e1['roots'] if rx.search(r['root'])}
+    return e1_obligations(rep, ctx, lambda o: o['kind'] in ('P-assert', 'P-call', 'P-pre', 'R-inv', 'C-cast') and not roots.isdisjoint(o['roots']))
+
+
 def contract_records(rep: Report, ctx: Ctx, prop):
     """returns the number of distinct (root, variant) pairs that produced records for the property (the floor is on
     that number: it does not depend on how many paths an implementation happens to have)"""
     n = 0
     roots = set()
+    also = ALSO.get(prop)
     for r in ctx.e1['roots']:
         for c in r['contracts']:
-            if c['prop'] != prop and not (c['prop'] == 'C00'):
+            if c['prop'] != prop and not (c['prop'] == 'C00') and not (also is not None and also(c, r)):
                 continue
             if c['prop'] == 'C00':
                 # a contract that could not be evaluated: report under every property (fail closed)
@@ -369,6 +412,7 @@ def prop_contracts(pid, explanation):
             n = contract_records(rep, ctx, pid)
             if cfg == 'full':
                 ctx.floor(f'{pid} contract records', n, fl.get('contracts', 1))
+            related_obligations(rep, ctx, pid)
             extra = EXTRA_RULES.get(pid)
             if extra:
                 extra(rep, ctx)
@@ -394,6 +438,7 @@ def prop_tables(pid, fn, explanation):
             n = contract_records(rep, ctx, pid)
             if cfg == 'full':
                 ctx.floor(f'{pid} contract records', n, floors().get(pid, {}).get('contracts', 0))
+            related_obligations(rep, ctx, pid)
             extra = EXTRA_RULES.get(pid)
             if extra:
                 extra(rep, ctx)
